@@ -402,6 +402,17 @@ func runK13(r *rng, n int) {
 			}
 			stepK4(be, c, r, 40, mk(40, map[string]interface{}{"Directory": uint64(2), "Offset": uint64(0), "Count": cnt}))
 		}
+		// reads through an xattr fid whose value is longer than a frame can carry
+		if eff >= 4096 && eff <= 65536 {
+			be.mu.Lock()
+			be.bigXattr = int(eff) + 64
+			be.mu.Unlock()
+			stepK4(be, c, r, 30, mk(30, map[string]interface{}{"fid": uint64(0), "newFID": uint64(3), "Name": "user.big"}))
+			for k := 0; k < 4; k++ {
+				cnt := counts[r.intn(len(counts))]
+				stepK4(be, c, r, 116, mk(116, map[string]interface{}{"fid": uint64(3), "Offset": uint64(r.intn(40)), "Count": cnt}))
+			}
+		}
 		c.peer.c.Close()
 		ok := c.peer.waitDone(10 * time.Second)
 		_, calls := be.takeLog()
